@@ -34,7 +34,7 @@ ASSUMPTIONS = [
     "documented errors = the exception classes of pyoak.legacy.error; an operation that raises anything else gives no verdict (counted)",
     "operations expected to be rejected that are accepted give no verdict (counted) and join the history",
 ]
-MUST_SEE = ["transform_of_a_detached_tree_rejected", "replace_key_init_false_in_subclass", "same_id_pair_as_children", "transform_result_is_an_attached_root", "detached_receiver_children_reused", "falsy_replacement_with_parent", "visitor_reused_after_rejection", "wrapper_reusing_own_child", "replace_with_own_child", "adopted_children_checked", "runtime_only_child_field_transform", "rule_replaces_children_of_its_copy", "receiver_below_falsy_parent", 
+MUST_SEE = ["receiver_with_node_or_scalar_field", "collision_two_levels_below_new", "nodes_above_failing_descendant_checked", "transform_of_a_detached_tree_rejected", "replace_key_init_false_in_subclass", "same_id_pair_as_children", "transform_result_is_an_attached_root", "detached_receiver_children_reused", "falsy_replacement_with_parent", "visitor_reused_after_rejection", "wrapper_reusing_own_child", "replace_with_own_child", "adopted_children_checked", "runtime_only_child_field_transform", "rule_replaces_children_of_its_copy", "receiver_below_falsy_parent", 
     "rejected_ASTNodeDuplicateChildrenError", "rejected_ASTNodeParentCollisionError", "rejected_ASTNodeIDCollisionError", "rejected_ASTNodeRegistryCollisionError",
     "rejected_ASTNodeReplaceError", "rejected_ASTNodeReplaceWithError", "rejected_ASTTransformError", "failing_element_not_first", "frames_compared", "nested_failing_element", "two_collided_children",
 ]
@@ -108,8 +108,8 @@ def run_shard(ctx):
             kind = rng.choices(
                 ["dup_seq", "dup_two_fields", "parent_collision", "parent_collision_nested", "id_collision", "attach_collision", "attach_collision_nested",
                  "replace_keys", "replace_dup", "replace_parent_collision", "rw_has_parent", "rw_wrong_class", "rw_none_required", "rw_attach_fails",
-                 "transform_raises", "transform_removes_required", "transformer_raises", "rw_clone_of_attached", "parent_collision_two", "transform_runtime_children", "rw_own_child", "rw_wrapper_reuses_child", "transform_reused_visitor", "rw_falsy_with_parent", "transform_result_refused", "replace_dup_detached_receiver", "replace_same_id_pair", "transform_on_detached_tree"],
-                [3, 3, 1, 1, 3, 3, 1, 3, 1, 1, 3, 3, 3, 1, 3, 3, 3, 2, 2, 2 if f"{P}Seq" in U.cls else 0, 2, 2, 2, 2, 2, 2, 2, 2],
+                 "transform_raises", "transform_removes_required", "transformer_raises", "rw_clone_of_attached", "parent_collision_two", "transform_runtime_children", "rw_own_child", "rw_wrapper_reuses_child", "transform_reused_visitor", "rw_falsy_with_parent", "transform_result_refused", "replace_dup_detached_receiver", "replace_same_id_pair", "transform_on_detached_tree", "rw_collision_two_levels_down"],
+                [3, 3, 1, 1, 3, 3, 1, 3, 1, 1, 3, 3, 3, 1, 3, 3, 3, 2, 2, 2 if f"{P}Seq" in U.cls else 0, 2, 2, 2, 2, 2, 2, 2, 2, 2],
             )[0]
             where = rng.choice(["first", "middle", "last"])
             if kind == "dup_seq":
@@ -258,6 +258,30 @@ def run_shard(ctx):
                 F.add(new_home)
                 ctx.count("detached_receiver_children_reused")
                 return ("replace", "last", oldn, [a_, b_, c_, c_], lambda: oldn.replace(items=(a_, b_, c_, c_)))
+            if kind == "rw_collision_two_levels_down":
+                # the replacement is a fresh detached carrier around a detached node (its id is free) whose own child is a
+                # stale twin of a live node (its id is taken): the attach of the carrier fails two levels down
+                R.counter += 1
+                v_ = R.counter + 97000
+                t_old = U.cls[f"{P}Leaf"](v=v_, origin=NO)
+                t_old.detach()
+                t_new = U.cls[f"{P}Leaf"](v=v_, origin=NO)
+                mid = U.cls[f"{P}Un"](child=t_old, origin=NO, create_detached=True)
+                extra = leaf()
+                extra.detach()
+                carrier = U.cls[f"{P}List"](items=(extra, mid) if where != "first" else (mid, extra), origin=NO, create_detached=True)
+                x_ = U.cls[f"{P}Un"](child=leaf(), origin=NO)
+                if rng.random() < 0.5:
+                    # the receiver's class has a field that admits a node or a scalar and holds the scalar; the class was asked
+                    # for its static field lists before (a schema generator)
+                    x_ = U.cls[f"{P}UnionLbl"](label=f"text{R.counter}", kid=x_, origin=NO)
+                    if rng.random() < 0.7:
+                        list(type(x_).get_property_fields()), list(type(x_).get_child_fields())
+                    ctx.count("receiver_with_node_or_scalar_field")
+                holder = U.cls[f"{P}List"](items=(leaf(), x_), origin=NO)
+                F.add(t_old, t_new, mid, extra, carrier, holder)
+                ctx.count("collision_two_levels_below_new")
+                return ("replace_with_attach_fails", where, x_, [carrier], lambda: x_.replace_with(carrier))
             if kind == "transform_on_detached_tree":
                 # transform() asked of a tree that was taken out of the registry before (the visitor walks the caller's own
                 # nodes): the rules rewrite leaves, the one for the last grandchild raises - the caller's tree stays as it was
@@ -618,6 +642,21 @@ def run_shard(ctx):
                     reg0 = before["registry"]
                     stop = next((i for i, x in enumerate(order) if i > 0 and (before["nodes"].get(id(x)) or (False,))[0] and reg0.get(before["nodes"][id(x)][5]) not in (None, id(x))), None)
                     if stop is not None:
+                        # nodes between 'new' and the failing descendant are mid-descent when the failure occurs: they were
+                        # given nothing yet (links are set after a child's own subtree went in), so they come out unchanged
+                        par = {}
+                        for x_ in order:
+                            for _fn, _ix, c_ in struct_children(U, x_):
+                                par.setdefault(id(c_), x_)
+                        above = set()
+                        q_ = par.get(id(order[stop]))
+                        while q_ is not None and q_ is not new_root:
+                            above.add(id(q_))
+                            q_ = par.get(id(q_))
+                        if above:
+                            ctx.count("nodes_above_failing_descendant_checked")
+                            if any(dd.get("obj") in above for dd in diff):
+                                return generic + "|node-above-the-failing-descendant-changed", roles
                         ctx.count("nodes_after_failing_descendant_checked")
                         late = {id(x) for x in order[stop + 1:]} - {id(x) for x in order[: stop + 1]}
                         if any(dd.get("obj") in late for dd in diff):
